@@ -34,6 +34,16 @@ func vC06Build(shapeIdx int, names map[int]string, withMapping bool) (*Profile, 
 	return p, ids
 }
 
+// vFileVariant reports whether the profile was built with the two-file variant.
+func vFileVariant(p *Profile) bool {
+	for _, f := range p.Function {
+		if f.Filename == "g.go" {
+			return true
+		}
+	}
+	return false
+}
+
 func vOptRx(name string, on bool) *regexp.Regexp {
 	if on {
 		return vRegexp(name)
@@ -46,7 +56,19 @@ func VerifC06FilterByName() {
 	si := vChoice("shape", vBound("c06.shapes", len(vC06Shapes)))
 	names := vC11Names()
 	withMapping := vChoice("mapping", 2) == 1
+	// functions may share a name and differ in their source file
+	vC11Files = nil
+	if vChoice("files", 2) == 1 {
+		vC11Files = map[int]string{1: "f.go", 2: "g.go", 3: "g.go"}
+	}
 	p, ids := vC06Build(si, names, withMapping)
+	vC11Files = nil
+	fileOf := func(f int) string {
+		if f >= 2 && len(p.Function) > 0 && vFileVariant(p) {
+			return "g.go"
+		}
+		return "f.go"
+	}
 	which := vChoice("filters", vBound("c06.filters", 7))
 	// 0 focus, 1 ignore, 2 focus+ignore, 3 hide, 4 show, 5 focus+hide, 6 ignore+show
 	useFocus := which == 0 || which == 2 || which == 5
@@ -63,7 +85,7 @@ func VerifC06FilterByName() {
 	focus, ignore, hide, show := vOptRx("focus", useFocus), vOptRx("ignore", useIgnore), vOptRx("hide", useHide), vOptRx("show", useShow)
 
 	frameMatch := func(re *regexp.Regexp, f int) bool {
-		return vOr(re.MatchString(names[f]), re.MatchString("f.go"))
+		return vOr(re.MatchString(names[f]), re.MatchString(fileOf(f)))
 	}
 	locMatch := func(re *regexp.Regexp, l *Location, fs []int) bool {
 		r := false
